@@ -30,9 +30,10 @@ own = [i for i, m in metas if m.get("detected_by") and m.get("breaks_property") 
 other = [i for i, m in metas if m.get("detected_by") and m.get("breaks_property") not in m["detected_by"]]
 tab = ("Each change was produced by an independent sub-agent that saw only the text of one property and a scratch worktree; each compiles, passes the 38 tests,\n"
        "and comes with a demonstration (`seeded/<id>/demo.rs`) that fails with the patch and passes without it (`tools/confirm_seed.py`). The last column is the\n"
-       "outcome of running every claimed check (quick tier) on a scratch worktree with the patch applied (`tools/run_seeds.py`, one consistent snapshot of /verif, final state); the first\n"
+       "outcome of running every claimed check (quick tier) on a scratch worktree with the patch applied (`tools/run_seeds.py`: S01-S64 from one consistent snapshot, re-run on the final machinery wherever a later rule could change the outcome (all former misses, S01-S14 and the seeds named in section 5); S65-S79 on the final machinery); the first\n"
        "violated obligation is quoted. Of the %d seeds, %d are reported by at least one check -- %d of them by the check of the property they were written against, %d only by another check (%s) -- and %d are missed (%s). "
-       "All misses are numerical decisions (reasons in the table). Several rules were built *after* a seed had shown the gap (the slow-path decision rule, the hi64 classes, the tie window as applied, wrap-free, "
+       "All misses are numerical decisions (reasons in the table). The seeds reported only elsewhere are caught by the clause that decides them, which is filed under a sibling property "
+       "(S06: boundary classes of `round`, C18; S50: hi64 classes, C12; S71: dropped-digits flag, C06/C11; S78: capacity of the heap vector, C04/C08/C13). Several rules were built *after* a seed had shown the gap (the slow-path decision rule, the hi64 classes, the tie window as applied, wrap-free, "
        "the window-width agreement, the dropped-digits flag, the libm constants); the table shows the final state, the history is in section 5. Reports by checks other than the one\n"
        "the seed targets are mostly fail-closed side effects (an API the summaries do not know, a changed audited key) and say nothing about that other property.\n\n"
        "| seed | property it breaks | change | needs, to manifest | detected by |\n|---|---|---|---|---|\n" % (n_all, n_all - len(missed), len(own), len(other), ", ".join(other) or "none", len(missed), ", ".join(missed) or "none") + "\n".join(rows) + "\n")
